@@ -5305,3 +5305,86 @@ func tagLookupHitOnly(c *Ctx, p *Prog, rule string) {
 	r.Check(len(bad) == 0, rule, "Level.ShortTag:lookup-hit", p.FuncPos(fn), fmt.Sprintf("the %d table entries returned are returned on the hit edge of their lookup", n),
 		"a tag table entry is returned without the lookup having hit (at "+strings.Join(bad, ", ")+"): a level without an entry of its own gets the empty string - a tag of 0 characters instead of `length`")
 }
+
+// asTargetUsedOnSuccess: a pointer local that only errors.As can set is nil until As succeeded: every dereference of
+// it lies on the true edge of that As call. (`errors.As(err, &pe) || errors.Is(pe.Err, ..)` dereferences the nil
+// pointer exactly when the error is of another kind - inside the handling of a failed Write.)
+func asTargetUsedOnSuccess(c *Ctx, p *Prog, rule string) {
+	r := c.R
+	n := 0
+	var bad []string
+	for _, fn := range p.RepoFuncs() {
+		if fn.Pkg != p.Slog {
+			continue
+		}
+		for _, cs := range callsIn(fn) {
+			cal := calleeOf(cs)
+			if cal == nil || cal.String() != "errors.As" || len(cs.Common().Args) != 2 {
+				continue
+			}
+			call, isCall := cs.(*ssa.Call)
+			if !isCall {
+				continue
+			}
+			var al *ssa.Alloc
+			switch x := strip(cs.Common().Args[1]).(type) {
+			case *ssa.Alloc:
+				al = x
+			case *ssa.MakeInterface:
+				al, _ = strip(x.X).(*ssa.Alloc)
+			}
+			if al == nil {
+				continue
+			}
+			if _, isPtr := al.Type().Underlying().(*types.Pointer).Elem().Underlying().(*types.Pointer); !isPtr {
+				continue // the target is not a pointer-typed local
+			}
+			// other stores to the local make it non-nil by other means: not our pattern
+			onlyAs := true
+			for _, ref := range *al.Referrers() {
+				if st, ok := ref.(*ssa.Store); ok && st.Addr == ssa.Value(al) && !isNilConst(st.Val) {
+					onlyAs = false
+				}
+			}
+			if !onlyAs {
+				continue
+			}
+			n++
+			for _, ref := range *al.Referrers() {
+				ld, ok := ref.(*ssa.UnOp)
+				if !ok || ld.Op != token.MUL {
+					continue
+				}
+				for _, use := range *ld.Referrers() {
+					deref := false
+					switch u := use.(type) {
+					case *ssa.FieldAddr:
+						deref = u.X == ssa.Value(ld)
+					case *ssa.UnOp:
+						deref = u.Op == token.MUL && u.X == ssa.Value(ld)
+					}
+					if !deref {
+						continue
+					}
+					okEdge := false
+					for _, g := range guardsOf(use.Block()) {
+						cond, neg := normCond(g.If.Cond)
+						if cond == ssa.Value(call) && (g.Succ == 0) != neg {
+							okEdge = true
+						}
+					}
+					if !okEdge {
+						bad = append(bad, shortName(fn)+" at "+p.Pos(instrPos(use)))
+					}
+				}
+			}
+		}
+	}
+	sort.Strings(bad)
+	if n == 0 {
+		r.OkTrivial(rule, "as-target", "-", "no pointer local is filled by errors.As")
+		return
+	}
+	r.Check(len(bad) == 0, rule, "as-target", "-", fmt.Sprintf("the %d pointer locals filled by errors.As are dereferenced on its success edge only", n),
+		"a pointer that only errors.As sets is dereferenced where As did not succeed ("+strings.Join(dedupStr(bad), "; ")+"): for an error of another kind the nil pointer is dereferenced - the logging call panics while handling a failed Write, the destinations after the failing one get nothing and no diagnostic is issued")
+}
